@@ -13,7 +13,7 @@ Require Import Zrs.gen.Generated Zrs.model.Headers Zrs.model.BlockDec Zrs.model.
 Require Import Zrs.proofs.C03_HufTable Zrs.proofs.C13_Canonical Zrs.proofs.C13_CanonCode Zrs.proofs.C13_LitAll Zrs.proofs.C13_Direct.
 Require Import Zrs.model.SeqEnc Zrs.model.FseEnc Zrs.model.WeightEnc Zrs.proofs.C12_SeqStream Zrs.proofs.C12_Desc Zrs.proofs.C13_WeightStream Zrs.proofs.C13_WeightDesc Zrs.proofs.C12_AvoidBits Zrs.proofs.C13_WeightTable Zrs.proofs.C13_WeightFinal.
 Require Import Zrs.model.FseNorm Zrs.proofs.C13_WeightModel.
-Require Import Zrs.proofs.C13_EncCanon Zrs.proofs.C13_Agree.
+Require Import Zrs.proofs.C13_EncCanon Zrs.proofs.C13_Agree Zrs.proofs.C13_Accepted.
 Open Scope Z_scope.
 
 Theorem C13_shape_valid : forall n, 2 <= n <= 256 ->
@@ -270,9 +270,20 @@ Theorem C13_compressor_code_is_the_decoder_code : forall ws dec M bits ranks idx
   Forall (fun w => 0 <= w) ws -> (length ws <= 255)%nat ->
   build_table_from_weights ws = ROk (dec, M, bits, ranks, idxs) -> ht_decode t = dec -> ht_max_bits t = M ->
   exists lw codes, 1 <= lw <= M /\ enc_build_from_weights (ws ++ [lw]) = ROk codes /\
-    forall s, 0 <= s <= Z.of_nat (length ws) -> 0 < nth (Z.to_nat s) (ws ++ [lw]) 0 ->
-      code_of_dec t s = (fst (nth (Z.to_nat s) codes (0, 0)), Z.to_nat (snd (nth (Z.to_nat s) codes (0, 0)))).
+    (forall s, 0 <= s <= Z.of_nat (length ws) -> 0 < nth (Z.to_nat s) (ws ++ [lw]) 0 ->
+      code_of_dec t s = (fst (nth (Z.to_nat s) codes (0, 0)), Z.to_nat (snd (nth (Z.to_nat s) codes (0, 0))))) /\
+    bits = map (bits_of M) (ws ++ [lw]).
 Proof. exact encoder_and_decoder_agree. Qed.
+
+(** every complete weight list is accepted: if the weights of all symbols (the last one included) have Kraft sum 2^M with
+    M <= 11, the decoder accepts the list without the last weight, builds a table of width M and infers exactly that
+    last weight *)
+Theorem C13_complete_weights_are_accepted : forall ws lw M,
+  Forall (fun w => 0 <= w <= MAX_MAX_NUM_BITS) ws -> 1 <= lw <= M -> M <= MAX_MAX_NUM_BITS ->
+  0 < kraft ws -> kraft (ws ++ [lw]) = 2 ^ M ->
+  exists dec bits ranks idxs, build_table_from_weights ws = ROk (dec, M, bits, ranks, idxs) /\
+    bits = map (fun w => if 0 <? w then M + 1 - w else 0) ws ++ [M + 1 - lw].
+Proof. exact complete_weights_are_accepted. Qed.
 
 Example C13_agreement_example :
   match enc_build_from_weights [2; 1; 1; 3], build_table_from_weights [2; 1; 1] with
@@ -283,6 +294,7 @@ Proof. vm_compute. auto. Qed.
 
 Print Assumptions C13_compressor_code_in_closed_form.
 Print Assumptions C13_compressor_code_is_the_decoder_code.
+Print Assumptions C13_complete_weights_are_accepted.
 Print Assumptions C13_decoder_table_is_a_complete_prefix_code.
 Print Assumptions C13_code_words_of_every_table_resolve.
 Print Assumptions C13_huffman_literals_section_decodes.
